@@ -17,6 +17,7 @@ import Driver.RewardsNode
 import Driver.Abi
 import Driver.Journal
 import Driver.JsonRpc
+import Driver.NodeCache
 /-
 One line per handler object. The first handler that understands a line answers it.
 -/
@@ -49,7 +50,8 @@ def registry : List Obj := [
   pureObj pureAbi,
   pureObj pureArRecv,
   mkObj ({} : JrSt) jrStep,
-  pureObj pureJsonRpc
+  pureObj pureJsonRpc,
+  mkObj ([] : NcAll) ncStep
 ]
 
 end ZV.Driver
